@@ -162,10 +162,13 @@ def run(chk):
         # confirm: re-execute the failing walks alone (truncated at the failing step) and re-judge
         if mine:
             confirm(chk, mine, walks, steps, init_state, domain_path, byw)
-    chk.cov["rule"] = ("every transition of the bounded TLC state graph of AllocMC is executed on the real Allocator "
+    chk.cov["rule"] = ("allocator level: every transition of the bounded TLC state graph of AllocMC is executed on the real Allocator "
                        "(edge cover by walks); non-trivial = distinct (memory, layout, operation) whose step changed memory")
     chk.assumptions += ["services always carry at least one port (the API forbids zero-port LoadBalancers)",
                         "catalogue of pool layouts and request profiles as listed in spec/Domain.tla and spec/AllocMC.tla"]
+    # the same property at the level of the controller (Service statuses, re-syncs, restarts)
+    import fam_ctrl
+    fam_ctrl.run_controller(chk)
 
 
 def confirm(chk, mine, walks, steps, init_state, domain_path, byw):
@@ -200,6 +203,9 @@ def confirm(chk, mine, walks, steps, init_state, domain_path, byw):
 
 def replay(chk, path):
     body = json.load(open(path))
+    if body["scenario"].get("family") == "ctrl":
+        import fam_ctrl
+        return fam_ctrl.replay(chk, path)
     domain_path, _ = vlib.domain_dump(chk)
     sc = body["scenario"]
     scen = os.path.join(chk.work, "scen_replay.ndjson")
